@@ -224,3 +224,92 @@ def socklen_rule(rep, u):
             (rep.proved if clamped else rep.violated)("R-NARROW", fn, "socklen-clamped", desc, key(a)[:60] if clamped else
                                                       "the size_t capacity is passed as it is: buf_size = 0x100000008 is seen as 8 (ENOSPC for a 4 GiB buffer)", c.get("ln"))
     return n
+
+
+# ------------------------------------------------------------------ third pass (replays/C18-hunt3)
+
+def unix_no_split_rule(rep, u, fname="sa_addr_port_from_str"):
+    """text that starts like a UNIX path ('/' or '.') and failed as a whole (too long) is not cut at its last ':' and
+    accepted as a shorter path with a port: the split is behind a test of the first byte"""
+    from rules import r_mpt
+    fn = u.fn(fname)
+    if fn is None or not fn.has_cfg:
+        raise driver.AnalysisBroken("anchor %s vanished" % fname)
+    rep.functions.add(fname)
+    splits = [(pos, c) for pos, root, c, ps in fn.calls() if (c.get("fn") or "").startswith(("mem_rchr", "memrchr", "strrchr")) and any(const_val(a) == 0x3a for a in c["args"])]
+    if not splits:
+        raise driver.AnalysisBroken("%s: the ':' split not found" % fname)
+    n = 0
+    for pos, c in splits:
+        for ch, nm in ((0x2f, "'/'"), (0x2e, "'.'")):
+            n += 1
+            ok = False
+            for bid in fn.reachable_blocks():
+                cnd = fn.blocks[bid].cond
+                if cnd is None or not fn.dominates(bid, pos[0]) or bid == pos[0]:
+                    continue
+                atoms = [y for y, _ in _walk(cnd) if (y.get("k") == "un" and y["op"] == "*") or y.get("k") == "sub"]
+                if not atoms or not any(const_val(y) == ch for y, _ in _walk(cnd)):
+                    continue
+                try:
+                    v = r_mpt.eval_expr(cnd, {id(a): ch for a in atoms})
+                except r_mpt.Unknown:
+                    continue
+                s_ = fn.blocks[bid].succ[0] if v else fn.blocks[bid].succ[1]
+                if s_ is None or pos[0] not in fn.reach_from([s_], avoid=[bid]):
+                    ok = True
+            desc = "%s: text whose first byte is %s never reaches the ':' split" % (fname, nm)
+            (rep.proved if ok else rep.violated)("R-SPELL", fn, "no-split-of-unix-path:%s" % nm, desc, "" if ok else
+                                                 "'/' + 106 * 'a' + ':0' fails as a whole (path too long), is cut at the ':' and accepted as a 107 character path with port 0", c.get("ln"))
+    return n
+
+
+def net_blank_rule(rep, u, fname="str_net_to_ss"):
+    """blanks inside a network text are no spelling: a blank right before '/' is refused; blanks after the text are not handed
+    to the strict number parser (so that ' 10.0.0.0/8' and '10.0.0.0/8 ' get the same answer).  Partial evaluation with the
+    delimiter search, the number parser and the address parser represented by their results."""
+    from rules import r_stride
+    fn = u.fn(fname)
+    if fn is None or not fn.has_cfg:
+        raise driver.AnalysisBroken("anchor %s vanished" % fname)
+    rep.functions.add(fname)
+    numcalls = [c for _p, _r, c, _ps in fn.calls() if (c.get("fn") or "").startswith(("str2u", "ustr2u"))]
+    srch = [c for _p, _r, c, _ps in fn.calls() if (c.get("fn") or "").startswith(("mem_rchr", "mem_chr", "memchr", "memrchr"))]
+    addrp = [c for _p, _r, c, _ps in fn.calls({"sa_addr_from_str", "sa_addr_port_from_str"})]
+    if len(numcalls) != 1 or len(srch) != 1 or len(addrp) != 1:
+        raise driver.AnalysisBroken("%s: expected one number parser, one delimiter search and one address parser" % fname)
+    BUF, ADDR, OUT = 0x1000, 0x2000, 0x3000
+    n = 0
+    for txt, want_ok, want_numlen in ((b"10.0.0.0/8", True, 1), (b"10.0.0.0 /8", False, None), (b"10.0.0.0\t/8", False, None), (b"10.0.0.0/8 ", True, 1), (b"10.0.0.0/24 \t", True, 2)):
+        pe = r_stride.PE(u)
+        pe.memory = {BUF + i: c for i, c in enumerate(txt)}
+        slash = BUF + txt.index(b"/")
+        bind = {"buf": BUF, "buf_size": len(txt), "addr": ADDR, "preflen_ret": OUT, "addr->ss_family": 2, key(srch[0]): slash, key(addrp[0]): 0, key(numcalls[0]): 0}
+        pe.out_default = {numcalls[0]["fn"]: {len(numcalls[0]["args"]) - 1: 8}}
+        ev, ret = pe.trace(fn, bind)
+        n += 1
+        inst = "net-text[%r]" % txt.decode()
+        desc = "%s(%r) is %s" % (fname, txt.decode(), "accepted, the number parser gets the digits only" if want_ok else "refused")
+        if isinstance(ret, str):
+            rep.undecided("R-SPELL", fn, inst, desc, ret)
+            continue
+        if not want_ok:
+            (rep.proved if ret != 0 else rep.violated)("R-SPELL", fn, inst, desc, "status %s" % ret if ret != 0 else
+                                                       "accepted: the address part is trimmed by the address parser, so blanks between the address and '/' pass")
+            continue
+        numlen = None
+        for e, b in ev:
+            for y, _ in walk(e):
+                if y is numcalls[0]:
+                    try:
+                        vs = pe.evals(y["args"][1], b, 0)
+                        numlen = sorted(v for v, s_ in vs)[0] if vs else None
+                    except Exception:
+                        numlen = None
+        if ret != 0:
+            rep.violated("R-SPELL", fn, inst, desc, "status %s" % ret)
+        elif numlen != want_numlen:
+            rep.violated("R-SPELL", fn, inst, desc, "the strict number parser is given %s byte(s) (the trailing blanks included): the text is refused although the same blanks in front are accepted" % numlen)
+        else:
+            rep.proved("R-SPELL", fn, inst, desc, "number text of %s byte(s)" % numlen)
+    return n
